@@ -164,47 +164,56 @@ Proof.
   destruct (f st x) as [st1|] eqn:E; [|discriminate]. unfold bind in H. eapply IH; [|exact H]. eapply Hf; eauto.
 Qed.
 (** what one pass of the naming loop body does *)
-Lemma name_node_inv mn used mol fgs named idx node st' : name_node mn used (mol, fgs, named, idx) node = Ok st' ->
-  exists mol1 named1 idx1 a1 nm,
-    ((zin_l node named = true /\ mol1 = mol /\ named1 = named /\ idx1 = idx) \/
-     (zin_l node named = false /\ exists a el e, node_attrs mol node = Ok a /\ aget (S "element") a = Some el /\ as_str el = Ok e /\
-        bump_idx (Datatypes.S (length used)) used e idx = Ok idx1 /\
-        mol1 = set_node_attr mol node (S "atomname") (VStr (atom_label e idx1)) /\ named1 = node :: named)) /\
+Lemma name_node_inv mn used mol fgs named shn idx node st' : name_node mn used (mol, fgs, named, shn, idx) node = Ok st' ->
+  exists mol1 named1 shn1 idx1 a1 nm,
+    ((zin_l node named = true /\ mol1 = mol /\ named1 = named /\ shn1 = shn /\ idx1 = idx) \/
+     (zin_l node named = false /\ exists a sh el e, node_attrs mol node = Ok a /\ fragid_shared a = Ok sh /\
+        aget (S "element") a = Some el /\ as_str el = Ok e /\
+        bump_idx (Datatypes.S (length (if sh then used ++ shn else used))) (if sh then used ++ shn else used) e idx = Ok idx1 /\
+        mol1 = set_node_attr mol node (S "atomname") (VStr (atom_label e idx1)) /\ named1 = node :: named /\
+        shn1 = (if sh then VStr (atom_label e idx1) :: shn else shn))) /\
     node_attrs mol1 node = Ok a1 /\ aget (S "atomname") a1 = Some nm /\
     st' = (mol1, match fg_get mn fgs with Some g => fg_set mn (set_node_attr g node (S "atomname") nm) fgs | None => fgs end,
-           named1, idx1 + 1).
+           named1, shn1, idx1 + 1).
 Proof.
   unfold name_node. destruct (zin_l node named) eqn:Ez.
   - cbn [bind]. destruct (node_attrs mol node) as [a1|] eqn:E1; cbn [bind]; [|discriminate].
     destruct (aget (S "atomname") a1) as [nm|] eqn:E2; cbn [bind of_option]; [|discriminate]. intros H. apply ok_some in H. subst st'.
-    exists mol, named, idx, a1, nm. repeat split; auto.
+    exists mol, named, shn, idx, a1, nm. split; [left; repeat split; auto|repeat split; auto].
   - destruct (node_attrs mol node) as [a|] eqn:Ea; cbn [bind]; [|discriminate].
+    destruct (fragid_shared a) as [sh|] eqn:Esh; cbn [bind]; [|discriminate].
     destruct (aget (S "element") a) as [el|] eqn:Eel; cbn [bind of_option]; [|discriminate].
     destruct (as_str el) as [e|] eqn:Ee; cbn [bind]; [|discriminate].
-    destruct (bump_idx (Datatypes.S (length used)) used e idx) as [i|] eqn:Eb; cbn [bind]; [|discriminate].
+    destruct (bump_idx (Datatypes.S (length (if sh then used ++ shn else used))) (if sh then used ++ shn else used) e idx) as [i|] eqn:Eb;
+      cbn [bind]; [|discriminate].
     destruct (node_attrs (set_node_attr mol node (S "atomname") (VStr (atom_label e i))) node) as [a1|] eqn:E1; cbn [bind]; [|discriminate].
     destruct (aget (S "atomname") a1) as [nm|] eqn:E2; cbn [bind of_option]; [|discriminate]. intros H. apply ok_some in H. subst st'.
-    exists (set_node_attr mol node (S "atomname") (VStr (atom_label e i))), (node :: named), i, a1, nm.
-    split; [right; split; [reflexivity|]; exists a, el, e; repeat split; auto|]. repeat split; auto.
+    exists (set_node_attr mol node (S "atomname") (VStr (atom_label e i))), (node :: named),
+           (if sh then VStr (atom_label e i) :: shn else shn), i, a1, nm.
+    split; [right; split; [reflexivity|]; exists a, sh, el, e; repeat split; auto|]. repeat split; auto.
 Qed.
+Definition ns_mol (st : nstate) : graph := fst (fst (fst st)).
+Definition ns_fgs (st : nstate) : fgraphs := snd (fst (fst st)).
+Definition ns_named (st : nstate) : list Z := snd (fst st).
+Definition ns_shn (st : nstate) : list pyval := snd st.
 Lemma name_node_mol mn used st node st' : name_node mn used st node = Ok st' ->
-  fst (fst (fst st')) = fst (fst (fst st)) \/ exists v, fst (fst (fst st')) = set_node_attr (fst (fst (fst st))) node (S "atomname") v.
+  ns_mol (fst st') = ns_mol (fst st) \/ exists v, ns_mol (fst st') = set_node_attr (ns_mol (fst st)) node (S "atomname") v.
 Proof.
-  destruct st as [[[mol fgs] named] idx]. intros H.
-  destruct (name_node_inv _ _ _ _ _ _ _ _ H) as (mol1 & named1 & idx1 & a1 & nm & [[_ [-> _]]|[_ (a & el & e & _ & _ & _ & _ & -> & _)]] & _ & _ & ->);
-    cbn [fst]; [now left|right; eexists; reflexivity].
+  destruct st as [[[[mol fgs] named] shn] idx]. intros H.
+  destruct (name_node_inv _ _ _ _ _ _ _ _ _ H) as (mol1 & named1 & shn1 & idx1 & a1 & nm & [[_ [-> _]]|[_ (a & sh & el & e & _ & _ & _ & _ & _ & -> & _)]] & _ & _ & ->);
+    cbn; [now left|right; eexists; reflexivity].
 Qed.
 Theorem inv_set_atom_names R mol meta fgs mol' fgs' : fid_inv R mol -> set_atom_names mol meta fgs = Ok (mol', fgs') -> fid_inv R mol'.
 Proof.
   intros Hg. unfold set_atom_names, bind.
-  destruct (GraphOps.fold_res name_group2 (fraglist_of meta fgs) (mol, fgs, [])) as [r|] eqn:E; [|discriminate].
+  destruct (GraphOps.fold_res name_group2 (fraglist_of meta fgs) (mol, fgs, [], [])) as [r|] eqn:E; [|discriminate].
   intros H. apply ok_some in H. injection H as H1 H2. subst mol'.
-  apply (fold_res_inv (fun st : nstate => fid_inv R (fst (fst st))) name_group2 _) with (st := (mol, fgs, [])) (st' := r) in E; [exact E| |exact Hg].
-  intros st grp st' Hs Hn. unfold name_group2 in Hn. destruct st as [[m f] nd].
+  apply (fold_res_inv (fun st : nstate => fid_inv R (ns_mol st)) name_group2 _) with (st := (mol, fgs, [], [])) (st' := r) in E; [exact E| |exact Hg].
+  intros st grp st' Hs Hn. unfold name_group2 in Hn. destruct st as [[[m f] nd] sn].
   destruct (used_names m nd (snd grp)) as [used|]; cbn [bind] in Hn; [|discriminate Hn].
   match type of Hn with bind ?x _ = _ => destruct x as [r2|] eqn:E2 end; cbn [bind] in Hn; [|discriminate Hn].
   apply ok_some in Hn. subst st'.
-  apply (fold_res_inv (fun st : nstate * Z => fid_inv R (fst (fst (fst st)))) (name_node (fst grp) used) _) with (st := (m, f, nd, 0)) (st' := r2) in E2;
+  apply (fold_res_inv (fun st : nstate * Z => fid_inv R (ns_mol (fst st))) (name_node (fst grp) used) _) with (st := (m, f, nd, sn, 0)) (st' := r2) in E2;
     [exact E2| |exact Hs].
   intros s1 x s2 H1 Hx. destruct (name_node_mol _ _ _ _ _ Hx) as [->|[v ->]]; [exact H1|]. apply inv_set_node_attr; [other_key|exact H1].
 Qed.
@@ -613,23 +622,23 @@ Proof.
   - intros H E. inversion H; subst. unfold fg_keys. cbn [map fst snd]. now rewrite E.
   - intros H E. unfold fg_keys in *. cbn [map fst snd]. now rewrite IH.
 Qed.
-Lemma name_node_fgkeys mn used st node st' : name_node mn used st node = Ok st' -> fg_keys (snd (fst (fst st'))) = fg_keys (snd (fst (fst st))).
+Lemma name_node_fgkeys mn used st node st' : name_node mn used st node = Ok st' -> fg_keys (ns_fgs (fst st')) = fg_keys (ns_fgs (fst st)).
 Proof.
-  destruct st as [[[mol fgs] named] idx]. intros H.
-  destruct (name_node_inv _ _ _ _ _ _ _ _ H) as (mol1 & named1 & idx1 & a1 & nm & _ & _ & _ & ->). cbn [fst snd].
+  destruct st as [[[[mol fgs] named] shn] idx]. intros H.
+  destruct (name_node_inv _ _ _ _ _ _ _ _ _ H) as (mol1 & named1 & shn1 & idx1 & a1 & nm & _ & _ & _ & ->). cbn.
   destruct (fg_get mn fgs) eqn:Eg; [|reflexivity]. eapply fg_set_keys; [exact Eg|apply keys_set].
 Qed.
 Lemma set_atom_names_keys mol meta fgs mol' fgs' : set_atom_names mol meta fgs = Ok (mol', fgs') -> fg_keys fgs' = fg_keys fgs.
 Proof.
   unfold set_atom_names, bind.
-  destruct (GraphOps.fold_res name_group2 (fraglist_of meta fgs) (mol, fgs, [])) as [r|] eqn:E; [|discriminate].
+  destruct (GraphOps.fold_res name_group2 (fraglist_of meta fgs) (mol, fgs, [], [])) as [r|] eqn:E; [|discriminate].
   intros H. apply ok_some in H. injection H as H1 H2. subst fgs'.
-  apply (fold_res_inv (fun st : nstate => fg_keys (snd (fst st)) = fg_keys fgs) name_group2 _) with (st := (mol, fgs, [])) (st' := r) in E; [exact E| |reflexivity].
-  intros st grp st' Hs Hn. unfold name_group2 in Hn. destruct st as [[m f] nd].
+  apply (fold_res_inv (fun st : nstate => fg_keys (ns_fgs st) = fg_keys fgs) name_group2 _) with (st := (mol, fgs, [], [])) (st' := r) in E; [exact E| |reflexivity].
+  intros st grp st' Hs Hn. unfold name_group2 in Hn. destruct st as [[[m f] nd] sn].
   destruct (used_names m nd (snd grp)) as [used|]; cbn [bind] in Hn; [|discriminate Hn].
   match type of Hn with bind ?x _ = _ => destruct x as [r2|] eqn:E2 end; cbn [bind] in Hn; [|discriminate Hn].
   apply ok_some in Hn. subst st'.
-  apply (fold_res_inv (fun st : nstate * Z => fg_keys (snd (fst (fst st))) = fg_keys fgs) (name_node (fst grp) used) _) with (st := (m, f, nd, 0)) (st' := r2) in E2;
+  apply (fold_res_inv (fun st : nstate * Z => fg_keys (ns_fgs (fst st)) = fg_keys fgs) (name_node (fst grp) used) _) with (st := (m, f, nd, sn, 0)) (st' := r2) in E2;
     [exact E2| |exact Hs].
   intros s1 x s2 Hk1 Hx. now rewrite (name_node_fgkeys _ _ _ _ _ Hx).
 Qed.
